@@ -232,9 +232,13 @@ def evaluate_group(ctx, out, tsds, tag, exhaustive_perms=True):
         dump_ops.append(len(sb.ops)); sb.query(base + r, "dump")
         sb.query(base + r, "identity")
     after = []
+    pure_ops = []
     for i in range(k):
         after.append(len(sb.ops)); sb.query(i, "dump")
-    return sb.ops, {"before": before, "after": after, "results": results, "dumps": dump_ops, "perms": perms, "tsds": tsds, "tag": tag}
+        pure_ops.append(len(sb.ops)); sb.query(i, "identity")
+        pure_ops.append(len(sb.ops)); sb.query(i, "disjoint")
+    return sb.ops, {"before": before, "after": after, "results": results, "dumps": dump_ops, "perms": perms, "tsds": tsds, "tag": tag,
+                    "pure_ops": pure_ops}
 
 
 def check_group(out, ops, meta, io, mo):
@@ -310,6 +314,12 @@ def check_group(out, ops, meta, io, mo):
     for b, a in zip(meta["before"], meta["after"]):
         if io[b] != io[a]:
             out.oracle_failures.append({"scenario": sc, "tsds": tsds, "what": "an input type system was modified by merging"})
+            return
+    for i in meta.get("pure_ops", []):
+        if io[i].get("ok") is not True:
+            out.oracle_failures.append({"scenario": sc, "tsds": tsds, "op_index": i,
+                                        "what": "after merging, an input type system is no longer self-contained or shares objects with a result (purity)",
+                                        "actual": io[i]})
             return
     # correspondence with the model
     if mo is not None:
@@ -399,6 +409,10 @@ def finding_of(fl):
     if tsds is None:
         return None
     tsds = [{"types": [tuple(x) for x in t["types"]], "feats": t["feats"]} for t in tsds]
+    # the finding is: whether the merge *succeeds or raises ValueError* depends on the argument order.  Anything else
+    # that goes wrong on such inputs (other exceptions, impure merges, wrong hierarchy) is not this finding.
+    if fl.get("what") != "merge outcome differs from the merge rules" or {fl.get("expected"), fl.get("actual")} != {"ok", "ValueError"}:
+        return None
     if pending_ancestor_region(tsds):
         return "M6-merge-order-pending-ancestor"
     return None
